@@ -46,6 +46,18 @@ def run(ctx):
                 k = list(P.random_key_tuple(rng, d, 2, 1))
                 cases.append(('pow', [{'keys': k, 'vals': [rng.choice([1, -1, 2]) for _ in k]}], [n]))
         groups.append({'u': u, 'opts': {}, 'cases': cases, 'witness': True, 'revisit': 0})
+    # the algebraic skeleton of exp with FORMAL functions (public parameters cosh / sinhc / sqrt): exact on formal
+    # indeterminates; single blades, sums of blades (simple or not: a non-scalar square must raise NotImplementedError)
+    for d, us in ((1, [ucfg(sig=s_) for s_ in P.all_sigs(1)]), (2, [ucfg(sig=s_) for s_ in P.all_sigs(2)]), (3, None), (4, None), (5, None)):
+        from plans import config_list as _cl
+        for u in (us or _cl(ctx, d, 2 if q else 6, 1 if d <= 4 else 0)):
+            cases = [('expf', [[b_]], []) for b_ in (range(2 ** d) if d <= 3 else rng.sample(range(2 ** d), 8))]
+            for _ in range(6 if q else 40):
+                cases.append(('expf', [list(P.random_key_tuple(rng, d, 3, 1))], []))
+            for g in range(1, d + 1):
+                blk = list(P.grade_block(d, [g]))
+                cases.append(('expf', [blk if len(blk) <= 4 else rng.sample(blk, 3)], []))
+            groups.append({'u': u, 'opts': {}, 'cases': cases, 'revisit': 0})
     # grade blocks (single-grade operands are the documented domain of the outer series)
     from plans import config_list
     for d in (3, 4, 5, 6):
